@@ -85,7 +85,9 @@ class Ctx:
         self.findings.append(f)
 
     def skip(self, rule, what, why):
-        self.skipped.append({"rule": rule, "what": what, "why": why})
+        e = {"rule": rule, "what": what, "why": why}
+        if e not in self.skipped:
+            self.skipped.append(e)
 
     def info(self, text):
         self.infos.append(text)
